@@ -188,7 +188,10 @@ impl C03Deep {
         let stack_kib = *rng.pick(&[64u64, 128, 256]);
         let tail_at = match rng.below(5) { 0 => depth / 2, 1 => depth.saturating_sub(1), 2 => 1.min(depth), 3 => depth, _ => rng.range(0, depth) };
         let needs_iter = tail.contains("fail");
-        let via = if needs_iter { *rng.pick(&["iter", "slice"]) } else { *rng.pick(&["str", "slice", "iter"]) }.to_string();
+        let via = if rng.chance(1, 3) {
+            // any of the 13 entry points (those that cannot express a failing stream simply see the document end)
+            rng.pick(&ALL_ENTRIES).name().to_string()
+        } else if needs_iter { rng.pick(&["iter", "slice"]).to_string() } else { rng.pick(&["str", "slice", "iter"]).to_string() };
         let opts = (rng.chance(1, 4), rng.chance(1, 4));
         // half of the random scenarios use the generic tail: any single stream fault at a position
         // biased to the structural boundaries of the (closed) deep document
